@@ -86,6 +86,8 @@ func c11Blocks(thorough bool) []c11Block {
 		}
 	}
 	bs = append(bs, c11Rule(c11R, "@rx", `x\"@rx y`, 0, nil), c11Rule(c11R, "@rx", `q\" \x5cz`, 0, nil))
+	// stored operands that start or end with white space, an empty one, and one whose text also occurs earlier in its line
+	bs = append(bs, c11Rule(c11R, "@rx", "  lead", 0, nil), c11Rule(c11R, "!@rx", "trail \t", 0, nil), c11Rule(c11R, "@rx", "", 0, nil), c11Rule(c11R, "@rx", "ARGS", 0, nil), c11Rule(c11R, "@rx", "S", 0, []string{"@rx"}))
 	for _, chain := range [][]string{{"@rx"}, {"@pm"}, {"@rx", "@rx"}, {"@pm", "@rx"}, {"@rx", "@pm", "@rx"}} {
 		bs = append(bs, c11Rule(c11R, "@rx", "OLD", 0, chain))
 	}
